@@ -13,6 +13,7 @@ import (
 	"testing"
 	"time"
 
+	"github.com/ipfs/go-cid"
 	"github.com/ipld/go-ipld-prime"
 	"github.com/ipld/go-ipld-prime/codec/dagcbor"
 	"github.com/ipld/go-ipld-prime/codec/dagjson"
@@ -136,9 +137,11 @@ func inputLen(cs Case) int {
 	return n
 }
 
-// innerCBOR lists the byte strings that an entry point may hand to the
-// DAG-CBOR decoder: the input itself, its base64 decoding, CAR sections, and
-// byte-string items nested in those (container entries).
+// innerCBOR lists the byte strings that the given entry point hands to the
+// DAG-CBOR decoder: the input itself (token decoders), its base64 decoding
+// (base64 containers), the CAR header and sections, and the byte-string items
+// nested in a container (its entries). JSON and text entry points never reach
+// the DAG-CBOR decoder.
 func innerCBOR(cs Case) [][]byte {
 	var out [][]byte
 	add := func(b []byte) {
@@ -147,44 +150,48 @@ func innerCBOR(cs Case) [][]byte {
 		}
 	}
 	raw := cs.Bytes
-	if cs.Str != "" {
-		raw = []byte(cs.Str)
+	t := cs.Target
+	if strings.Contains(t, "Json") || targets[t].kind != "bytes" {
+		return nil
 	}
-	add(raw)
-	if d, err := base64.StdEncoding.DecodeString(strings.NewReplacer("\n", "", "\r", "").Replace(string(raw))); err == nil {
-		add(d)
-	} else if len(raw) > 4 {
-		// a base64 stream decoder hands over the clean prefix before failing
-		for cut := len(raw) - len(raw)%4; cut > 0 && cut > len(raw)-64; cut -= 4 {
-			if d, err := base64.StdEncoding.DecodeString(string(raw[:cut])); err == nil {
-				add(d)
-				break
+	if strings.HasSuffix(t, "Base64") {
+		clean := strings.NewReplacer("\n", "", "\r", "").Replace(string(raw))
+		if d, err := base64.StdEncoding.DecodeString(clean); err == nil {
+			raw = d
+		} else {
+			// a base64 stream decoder hands over the clean prefix before failing
+			raw = nil
+			for cut := len(clean) - len(clean)%4; cut > 0; cut -= 4 {
+				if d, err := base64.StdEncoding.DecodeString(clean[:cut]); err == nil {
+					raw = d
+					break
+				}
 			}
 		}
 	}
-	for _, b := range append([][]byte{}, out...) {
+	if strings.Contains(t, "Car") {
 		// CAR framing: uvarint length + payload, repeatedly
 		off := 0
-		for i := 0; off < len(b) && i < 64; i++ {
-			l, n := binary.Uvarint(b[off:])
-			if n <= 0 || l == 0 || l > uint64(len(b)-off-n) {
-				if n > 0 && off+n < len(b) {
-					add(b[off+n:]) // truncated section: what is there still gets read / decoded in part
-				}
+		for i := 0; off < len(raw) && i < 256; i++ {
+			l, n := binary.Uvarint(raw[off:])
+			if n <= 0 || l == 0 || l > uint64(len(raw)-off-n) {
 				break
 			}
-			sec := b[off+n : off+n+int(l)]
-			add(sec)
-			if len(sec) > 36 {
-				add(sec[36:]) // CIDv1 sha2-256 prefix skipped
+			sec := raw[off+n : off+n+int(l)]
+			if i == 0 {
+				add(sec) // header
+			} else if cl, _, err := cid.CidFromBytes(sec); err == nil {
+				add(sec[cl:])
 			}
 			off += n + int(l)
 		}
+		return out
 	}
-	for _, b := range append([][]byte{}, out...) {
-		if it, _, err := cbor.Parse(b); err == nil {
+	add(raw)
+	if strings.Contains(t, "container.") {
+		if it, _, err := cbor.Parse(raw); err == nil {
 			it.Walk(func(x *cbor.Item) {
-				if x.Major == 2 && len(x.Data) > 8 {
+				if x.Major == 2 && len(x.Data) > 0 {
 					add(x.Data)
 				}
 			})
@@ -348,7 +355,7 @@ func deepValue(depth int, asMap bool) val.V {
 	return v
 }
 
-func hostilePayload(t *rapid.T, typ string) val.V {
+func hostilePayload(t *rapid.T, typ string, jsonSafe bool) val.V {
 	iss := keys.Principal(0).DID.String()
 	p := map[string]val.V{
 		"iss": val.Str(iss), "aud": val.Str(keys.Principal(1).DID.String()), "sub": val.Str(iss), "cmd": val.Str("/foo"),
@@ -382,6 +389,19 @@ func hostilePayload(t *rapid.T, typ string) val.V {
 			p[f] = val.Map(val.E("k", hostileLeaf(t, "mv")), val.E("l", val.List(hostileLeaf(t, "lv"))))
 		default:
 			p[f] = hostileLeaf(t, "fv")
+		}
+		if jsonSafe {
+			// DAG-JSON cannot carry these at all: keep what the JSON decoders can reach
+			v := p[f]
+			bad := false
+			v.Walk(func(x val.V) {
+				if x.K == "strb" || x.K == "uint" || (x.K == "float" && (x.F == "NaN" || x.F == "+Inf" || x.F == "-Inf")) {
+					bad = true
+				}
+			})
+			if bad {
+				p[f] = val.List(val.Int(1<<62), val.Str("x"), val.Map(val.E("/", val.Str("not a link"))))
+			}
 		}
 	}
 	out := val.V{K: "map"}
@@ -436,12 +456,13 @@ func wrap(t *rapid.T, sealed []byte) (string, []byte) {
 
 var signedProp = h.Define(P, "signed", func(t *rapid.T) Case {
 	typ := rapid.SampledFrom([]string{"dlg", "inv"}).Draw(t, "typ")
-	payload := hostilePayload(t, typ)
+	asJSON := rapid.IntRange(0, 5).Draw(t, "asjson") == 0
+	payload := hostilePayload(t, typ, asJSON)
 	b, ok := signed(typ, payload)
 	if !ok {
 		return Case{Target: "token.FromSealed", Fam: "signed", Bytes: []byte{0x82, 0x40, 0xa0}}
 	}
-	if rapid.IntRange(0, 5).Draw(t, "asjson") == 0 {
+	if asJSON {
 		if n, err := ipld.Decode(b, dagcbor.Decode); err == nil {
 			var js []byte
 			if pn, _, _ := h.Try(func() { js, err = ipld.Encode(n, dagjson.Encode) }); !pn && err == nil {
@@ -582,7 +603,7 @@ var nodeProp = h.Define(P, "node", func(t *rapid.T) Case {
 			if typ == "inv" {
 				tag = env.InvTag
 			}
-			payload := hostilePayload(t, typ)
+			payload := hostilePayload(t, typ, false)
 			if payload.HasDupKeys() {
 				payload = val.Map()
 			}
